@@ -8,7 +8,12 @@ import time
 
 VERIF = os.path.dirname(os.path.dirname(os.path.abspath(__file__)))
 REPO = os.environ.get("VERIF_REPO", "/repo")
-BUILD = os.path.join(VERIF, "_build")
+# build output (harness, driver, logs): one directory per repository under test, so that a run against a
+# scratch checkout (VERIF_REPO) never picks up or overwrites the binaries of a run against /repo.
+# (coq/gen/*.v is still shared: do not run checks against different repositories at the same time.)
+import hashlib as _hashlib
+BUILD = os.path.join(VERIF, "_build" if os.path.abspath(REPO) == "/repo"
+                     else "_build-" + _hashlib.sha256(os.path.abspath(REPO).encode()).hexdigest()[:8])
 COQ = os.path.join(VERIF, "coq")
 TARGET = os.path.join(BUILD, "target")
 OCAML_DIR = os.path.join(BUILD, "ocaml")
@@ -106,12 +111,33 @@ def coq_make(targets, timeout=3000):
 
 
 def strip_coq_comments(src):
+    """remove (* ... *) comments (nested); string literals are honoured the way Coq's lexer does: a `"`
+    outside a comment starts a string (in which `(*` means nothing), and inside a comment a string
+    literal hides `*)`.  Strings outside comments are kept."""
     out = []
     depth = 0
     i = 0
     n = len(src)
+    in_str = False
     while i < n:
-        if src.startswith("(*", i):
+        c = src[i]
+        if in_str:
+            if depth == 0:
+                out.append(c)
+            if c == '"':
+                if i + 1 < n and src[i + 1] == '"':      # doubled quote inside a string
+                    if depth == 0:
+                        out.append('"')
+                    i += 2
+                    continue
+                in_str = False
+            i += 1
+        elif c == '"':
+            in_str = True
+            if depth == 0:
+                out.append(c)
+            i += 1
+        elif src.startswith("(*", i):
             depth += 1
             i += 2
         elif src.startswith("*)", i) and depth > 0:
@@ -119,7 +145,7 @@ def strip_coq_comments(src):
             i += 2
         else:
             if depth == 0:
-                out.append(src[i])
+                out.append(c)
             i += 1
     return "".join(out)
 
@@ -208,7 +234,7 @@ def compile_props(pid, interval_ok=False, timeout=1800):
         name = os.path.basename(src_path)[:-2]
         with open(src_path) as fh:
             src = strip_coq_comments(fh.read())
-        theorems = re.findall(r"^\s*(?:Theorem|Lemma|Corollary)\s+([A-Za-z_][\w']*)", src, re.M)
+        theorems = re.findall(r"^\s*(?:Theorem|Lemma|Corollary|Fact|Proposition|Remark|Property)\s+([A-Za-z_][\w']*)", src, re.M)
         printed = re.findall(r"^\s*Print\s+Assumptions\s+([A-Za-z_][\w']*)", src, re.M)
         all_theorems += theorems
         missing = [t for t in theorems if t not in printed]
@@ -243,6 +269,8 @@ def compile_props(pid, interval_ok=False, timeout=1800):
         if len(blocks) < len(printed):
             res["problems"].append("%s: only %d of %d Print Assumptions outputs seen" % (name, len(blocks), len(printed)))
     res["n_theorems"] = len(all_theorems)
+    if not all_theorems:
+        res["problems"].append("no theorem in the Props file(s) of %s" % pid)
     res["axioms"] = sorted(axioms)
     if bad:
         res["problems"].append("axioms outside the allow-list: " + ", ".join(sorted(bad)))
@@ -270,6 +298,29 @@ def build_harness():
     if not os.path.exists(lock) and os.path.exists(os.path.join(REPO, "Cargo.lock")):
         import shutil
         shutil.copy(os.path.join(REPO, "Cargo.lock"), lock)
+    # cargo decides by modification time whether the crate under test needs rebuilding; a source file
+    # replaced by one with an older or equal time stamp (cp -p, rsync -a, tar x) would leave a stale
+    # harness.  Decide by content instead: when the crate's sources differ from those of the last build,
+    # its compiled artefacts are discarded first.
+    import hashlib
+    h = hashlib.sha256()
+    h.update(os.path.abspath(REPO).encode())
+    srcs = []
+    for root, _d, files in os.walk(os.path.join(REPO, "src")):
+        srcs += [os.path.join(root, f) for f in files]
+    for f in sorted(srcs) + [os.path.join(REPO, "Cargo.toml"), os.path.join(REPO, "Cargo.lock")]:
+        if os.path.exists(f):
+            h.update(f.encode())
+            with open(f, "rb") as fh:
+                h.update(fh.read())
+    digest = h.hexdigest()
+    stamp = os.path.join(BUILD, "harness_src.sha256")
+    old_digest = open(stamp).read().strip() if os.path.exists(stamp) else ""
+    if digest != old_digest:
+        for prof in ([], ["--release"]):
+            run(["cargo", "clean", "--offline", "-q", "-p", "synth-utils"] + prof, cwd=hdir, timeout=300)
+        if os.path.exists(stamp):
+            os.remove(stamp)
     outs = []
     for prof in ([], ["--release"]):
         rc, out = run(["cargo", "build", "--offline", "-q"] + prof, cwd=hdir, timeout=1200)
@@ -278,6 +329,9 @@ def build_harness():
             log("cargo.log", "\n".join(outs))
             return False, out
     log("cargo.log", "\n".join(outs))
+    os.makedirs(BUILD, exist_ok=True)
+    with open(stamp, "w") as fh:
+        fh.write(digest)
     return True, ""
 
 
